@@ -140,10 +140,12 @@ def pushEnd (replace : Bool) (id : Str) (nonce : Option Str) : Str :=
 /-! ## futures, programs, chunks -/
 
 /-- when the environment makes a future ready: all `deps` completed, and (if `tick`) one executor turn
-    after its creation -/
+    after its creation; `started`: only once the executor has run at all (the tasks spawned before the first render
+    — the loaders of the resources — have not run while the view is first rendered) -/
 structure Fut where
   deps : List FId
   tick : Bool
+  started : Bool := false
   deriving DecidableEq, Repr, Inhabited
 
 structure Env where
@@ -152,7 +154,7 @@ structure Env where
   deriving Repr
 
 def Fut.ready (env : Env) (fut : Fut) (born : Nat) : Bool :=
-  fut.deps.all (fun d => env.done.contains d) && (!fut.tick || born < env.now)
+  fut.deps.all (fun d => env.done.contains d) && (!fut.tick || born < env.now) && (!fut.started || 0 < env.now)
 
 /-- a builder program: the calls a view makes on a `StreamBuilder` -/
 inductive Op where
@@ -576,7 +578,7 @@ inductive View where
   /-- `Suspend::new(async { res.await; v })` awaiting a server resource (`OnceResource`/`Resource`/`AsyncDerived`) -/
   | resSuspend (f : FId) (v : View)
   /-- `move || res.get().map(|_| v)`: a server resource read synchronously (meant for the children of a boundary) -/
-  | resRead (f : FId) (v : View)
+  | resRead (once : Bool) (f : FId) (v : View)
   /-- a `LocalResource` read synchronously, or awaited first thing in a `Suspend`, by the children of a boundary:
       the boundary's `LocalResourceNotifier` fires during `children.dry_resolve()` -/
   | localRead
@@ -595,26 +597,72 @@ inductive Ctx where
 mutual
 /-- the base futures a `Suspense` waits for: the server resources its children read while it walks them
     (`dry_resolve`; `late = false`) and every `Suspend` that `children.resolve()` meets.  A resource read that is first
-    evaluated during that resolution (`late = true`: inside the output of a `Suspend` or of another read) registers its
-    task too late — the boundary does not wait for it (F-C07-6); its output is taken to be synchronous. -/
-def depsOf : Bool → View → List FId
+    evaluated during that resolution (`late = true`) registers its task too late — the boundary does not wait for it
+    (F-C07-6); its output is taken to be synchronous.  A read is late when it sits in the output of a `Suspend`
+    (`Suspend::dry_resolve` polls the future but does not walk its output) or in the `.map` output of another read whose
+    resource had not loaded when the boundary walked its children (`was`: the futures that had completed by then —
+    `Option::dry_resolve` walks a `Some`). -/
+def depsOf (was : List FId) : Bool → View → List FId
   | _, .raw _ => []
-  | late, .seq vs => depsOfL late vs
-  | _, .suspend f v => f :: depsOf true v
+  | late, .seq vs => depsOfL was late vs
+  | _, .suspend f v => f :: depsOf was true v
   | _, .suspense _ _ _ => []
-  | late, .eb vs => depsOfL late vs
-  | _, .resSuspend f v => f :: depsOf true v
-  | false, .resRead f v => f :: depsOf true v
-  | true, .resRead _ _ => []
+  | late, .eb vs => depsOfL was late vs
+  | _, .resSuspend f v => f :: depsOf was true v
+  | false, .resRead once f v => f :: depsOf was (!was.contains f) v
+  | true, .resRead _ _ _ => []
   | _, .localRead => []
   | _, .localAwait _ => []
-def depsOfL : Bool → List View → List FId
+def depsOfL (was : List FId) : Bool → List View → List FId
   | _, [] => []
-  | late, v :: vs => depsOf late v ++ depsOfL late vs
+  | late, v :: vs => depsOf was late v ++ depsOfL was late vs
 end
 
-def directDeps (v : View) : List FId := depsOf false v
-def directDepsL (vs : List View) : List FId := depsOfL false vs
+def directDeps (v : View) : List FId := depsOf [] false v
+def directDepsL (vs : List View) : List FId := depsOfL [] false vs
+
+mutual
+/-- a synchronous server-resource read somewhere in the part of the view one boundary is responsible for -/
+def hasRead : View → Bool
+  | .raw _ => false
+  | .seq vs => hasReadL vs
+  | .suspend _ v => hasRead v
+  | .suspense _ _ _ => false
+  | .eb vs => hasReadL vs
+  | .resSuspend _ v => hasRead v
+  | .resRead _ _ _ => true
+  | .localRead => false
+  | .localAwait _ => false
+def hasReadL : List View → Bool
+  | [] => false
+  | v :: vs => hasRead v || hasReadL vs
+end
+
+mutual
+/-- the resources whose state, at the moment the boundary walks its children, decides which reads it sees: those read
+    in walked position whose `.map` output reads again -/
+def guardsOf : View → List (FId × Bool)
+  | .raw _ => []
+  | .seq vs => guardsOfL vs
+  | .suspend _ _ => []
+  | .suspense _ _ _ => []
+  | .eb vs => guardsOfL vs
+  | .resSuspend _ _ => []
+  | .resRead once f v => (if hasRead v then [(f, once)] else []) ++ guardsOf v
+  | .localRead => []
+  | .localAwait _ => []
+def guardsOfL : List View → List (FId × Bool)
+  | [] => []
+  | v :: vs => guardsOf v ++ guardsOfL vs
+end
+
+/-- branch on which of the resources `gs` have loaded now (`k` gets those that have, added to `was`).  A `Resource` /
+    `AsyncDerived` polls its future once where it is created, so it has loaded if its future had completed by then; the
+    loader of an `OnceResource` is a spawned task: it has loaded only if the executor has run since (`started`). -/
+def iteTree : List (FId × Bool) → List FId → (List FId → List Op) → List Op
+  | [], was, k => k was
+  | (g, once) :: gs, was, k =>
+    [Op.ite { deps := [g], tick := false, started := once } (iteTree gs (g :: was) k) (iteTree gs was k)]
 
 mutual
 /-- a `LocalResource` is read while the boundary walks its children (`dry_resolve`): the boundary renders its
@@ -626,7 +674,7 @@ def localNow : View → Bool
   | .suspense _ _ _ => false
   | .eb vs => localNowL vs
   | .resSuspend _ _ => false
-  | .resRead _ _ => false
+  | .resRead _ _ _ => false
   | .localRead => true
   | .localAwait _ => false
 def localNowL : List View → Bool
@@ -643,7 +691,7 @@ def localWait : View → Option FId
   | .suspense _ _ _ => none
   | .eb vs => localWaitL vs
   | .resSuspend _ _ => none
-  | .resRead _ _ => none
+  | .resRead _ _ _ => none
   | .localRead => none
   | .localAwait f => some f
 def localWaitL : List View → Option FId
@@ -654,18 +702,19 @@ def localWaitL : List View → Option FId
 end
 
 mutual
-def compile (ooo : Bool) : Ctx → View → List Op
-  | _, .raw s => [Op.sync s]
-  | c, .seq vs => compileL ooo c vs
-  | .top, .suspend f v =>
+/-- `was`: the futures that had completed when the innermost enclosing boundary walked its children -/
+def compileA (ooo : Bool) : List FId → Ctx → View → List Op
+  | _, _, .raw s => [Op.sync s]
+  | was, c, .seq vs => compileAL ooo was c vs
+  | was, .top, .suspend f v =>
     let fut : Fut := { deps := [f], tick := false }
-    [Op.ite fut (compile ooo .top v)
+    [Op.ite fut (compileA ooo was .top v)
       (Op.nextId ::
-        (if ooo then [Op.fallback "<!>".toList, Op.ooo fut true (compile ooo .top v) none]
-         else [Op.async fut (compile ooo .top v)]))]
-  | .direct, .suspend _ v => compile ooo .nested v
-  | .nested, .suspend _ v => compile ooo .nested v
-  | _, .suspense fb nonce vs =>
+        (if ooo then [Op.fallback "<!>".toList, Op.ooo fut true (compileA ooo was .top v) none]
+         else [Op.async fut (compileA ooo was .top v)]))]
+  | was, .direct, .suspend _ v => compileA ooo was .nested v
+  | was, .nested, .suspend _ v => compileA ooo was .nested v
+  | _, _, .suspense fb nonce vs =>
     if localNowL vs then
       -- `fut.now_or_never()` is `Some(None)`: the fallback is rendered in place, nothing is streamed
       [Op.nextId, Op.sync fb]
@@ -677,31 +726,61 @@ def compile (ooo : Bool) : Ctx → View → List Op
         (if ooo then [Op.fallback fb, Op.ooo fut false [] nonce]
          else [Op.async fut [Op.sync fb]])
     | none =>
-      let fut : Fut := { deps := directDepsL vs, tick := true }
-      Op.nextId ::
-        (if ooo then [Op.fallback fb, Op.ooo fut true (compileL ooo .direct vs) nonce]
-         else [Op.async fut (compileL ooo .direct vs)])
-  | c, .eb vs => [Op.sub (compileL ooo c vs)]
-  | .top, .resSuspend f v =>
+      iteTree (guardsOfL vs) [] fun was' =>
+        let fut : Fut := { deps := depsOfL was' false vs, tick := true }
+        Op.nextId ::
+          (if ooo then [Op.fallback fb, Op.ooo fut true (compileAL ooo was' .direct vs) nonce]
+           else [Op.async fut (compileAL ooo was' .direct vs)])
+  | was, c, .eb vs => [Op.sub (compileAL ooo was c vs)]
+  | was, .top, .resSuspend f v =>
     -- the resource's task has to run before the future can be ready: `tick`
     let fut : Fut := { deps := [f], tick := true }
-    [Op.ite fut (compile ooo .top v)
+    [Op.ite fut (compileA ooo was .top v)
       (Op.nextId ::
-        (if ooo then [Op.fallback "<!>".toList, Op.ooo fut true (compile ooo .top v) none]
-         else [Op.async fut (compile ooo .top v)]))]
-  | .direct, .resSuspend _ v => compile ooo .nested v
-  | .nested, .resSuspend _ v => compile ooo .nested v
-  | .top, .resRead _ v => compile ooo .top v
-  | .direct, .resRead _ v => compile ooo .nested v
-  | .nested, .resRead f v =>
+        (if ooo then [Op.fallback "<!>".toList, Op.ooo fut true (compileA ooo was .top v) none]
+         else [Op.async fut (compileA ooo was .top v)]))]
+  | was, .direct, .resSuspend _ v => compileA ooo was .nested v
+  | was, .nested, .resSuspend _ v => compileA ooo was .nested v
+  | was, .top, .resRead _ _ v => compileA ooo was .top v
+  | was, .direct, .resRead once f v => compileA ooo was (if was.contains f then .direct else .nested) v
+  | was, .nested, .resRead once f v =>
     -- F-C07-6: first evaluated while the boundary resolves its children: `res.get()` is `None` unless the
     -- resource has loaded by then, nobody waits for it, `None` renders as `<!>`
-    [Op.ite { deps := [f], tick := false } (compile ooo .nested v) [Op.sync "<!>".toList]]
-  | _, .localRead => []
-  | _, .localAwait _ => []
-def compileL (ooo : Bool) : Ctx → List View → List Op
-  | _, [] => []
-  | c, v :: vs => compile ooo c v ++ compileL ooo c vs
+    [Op.ite { deps := [f], tick := false } (compileA ooo was .nested v) [Op.sync "<!>".toList]]
+  | _, _, .localRead => []
+  | _, _, .localAwait _ => []
+def compileAL (ooo : Bool) : List FId → Ctx → List View → List Op
+  | _, _, [] => []
+  | was, c, v :: vs => compileA ooo was c v ++ compileAL ooo was c vs
+end
+
+def compile (ooo : Bool) (c : Ctx) (v : View) : List Op := compileA ooo [] c v
+def compileL (ooo : Bool) (c : Ctx) (vs : List View) : List Op := compileAL ooo [] c vs
+
+/-! `noLate c v`: no server resource is read *synchronously for the first time while the boundary resolves its children*
+    (a `resRead` inside the output of a `Suspend` or of another read, under a `Suspense`): such a read registers its
+    task after the boundary stopped collecting them, so nobody waits for it and what is rendered depends on whether
+    the resource had loaded by then (F-C07-6, class `sync-read-late`; `C07_late_read_witness`) -/
+mutual
+def noLate : Ctx → View → Bool
+  | _, .raw _ => true
+  | c, .seq vs => noLateL c vs
+  | .top, .suspend _ v => noLate .top v
+  | .direct, .suspend _ v => noLate .nested v
+  | .nested, .suspend _ v => noLate .nested v
+  | _, .suspense _ _ vs => noLateL .direct vs
+  | c, .eb vs => noLateL c vs
+  | .top, .resSuspend _ v => noLate .top v
+  | .direct, .resSuspend _ v => noLate .nested v
+  | .nested, .resSuspend _ v => noLate .nested v
+  | .top, .resRead _ _ v => noLate .top v
+  | .direct, .resRead _ _ v => noLate .nested v
+  | .nested, .resRead _ _ _ => false
+  | _, .localRead => true
+  | _, .localAwait _ => true
+def noLateL : Ctx → List View → Bool
+  | _, [] => true
+  | c, v :: vs => noLate c v && noLateL c vs
 end
 
 /-! before fix-c07-4: `Suspend::resolve` did not resolve its output, so a `Suspense` waited only for its direct
@@ -714,7 +793,7 @@ def directDepsOld : View → List FId
   | .suspense _ _ _ => []
   | .eb vs => directDepsOldL vs
   | .resSuspend f _ => [f]
-  | .resRead f v => f :: directDepsOld v
+  | .resRead once f v => f :: directDepsOld v
   | .localRead => []
   | .localAwait _ => []
 def directDepsOldL : List View → List FId
@@ -748,7 +827,7 @@ def compileOld (ooo : Bool) : Ctx → View → List Op
          else [Op.async fut (compileOld ooo .top v)]))]
   | .direct, .resSuspend _ v => compileOld ooo .nested v
   | .nested, .resSuspend f v => [Op.ite { deps := [f], tick := true } (compileOld ooo .nested v) []]
-  | c, .resRead _ v => compileOld ooo c v
+  | c, .resRead _ _ v => compileOld ooo c v
   | _, .localRead => []
   | _, .localAwait _ => []
 def compileOldL (ooo : Bool) : Ctx → List View → List Op
@@ -767,7 +846,7 @@ def viewDoc : View → Str
     if localNowL vs || (localWaitL vs).isSome then fb else viewDocL vs
   | .eb vs => viewDocL vs
   | .resSuspend _ v => viewDoc v
-  | .resRead _ v => viewDoc v
+  | .resRead _ _ v => viewDoc v
   | .localRead => []
   | .localAwait _ => []
 def viewDocL : List View → Str
